@@ -80,7 +80,7 @@ func genC13(t *rapid.T, w *world.World) caseC13 {
 	}
 	for i, m := 0, rapid.IntRange(2, 6).Draw(t, "pages"); i < m; i++ {
 		l := fmt.Sprintf("p%d", i)
-		p := pageReq{Limit: uint64(pick(t, l+"/limit", []int{1, 1, 2, 3, 5, 7, 0, n + 2, 100})), Reverse: kit.Chance(t, l+"/rev", 40), CountTotal: kit.Chance(t, l+"/ct", 50)}
+		p := pageReq{Limit: uint64(pick(t, l+"/limit", []int{1, 1, 2, 3, 5, 7, 0, n + 2, 100, 101, 1000, 4294967296})), Reverse: kit.Chance(t, l+"/rev", 40), CountTotal: kit.Chance(t, l+"/ct", 50)}
 		if kit.Chance(t, l+"/offset", 40) {
 			p.Offset = uint64(rapid.IntRange(0, n+1).Draw(t, l+"/off"))
 		}
